@@ -434,6 +434,9 @@ class PreTranslator(ASTTranslator):
         node.external = node.constant = True
     def postDict(translator, node):
         node.external = True
+    def postJoinedStr(translator, node):
+        if not node.values:  # f'' and the empty format spec of f'{x:}' have no children to inherit `external` from
+            node.external = True
     def postList(translator, node):
         node.external = True
     def postkeyword(translator, node):
